@@ -118,3 +118,152 @@ Definition cp_mode_dot (w : list F) (fs : list mat) (x : operand) (mode : nat) (
 
 End M.
 Notation mat F := (list (list F)) (only parsing).
+
+(* ================================================================== the other formats (Tucker, TT / TR, PARAFAC2) *)
+Section M2.
+Context {F : Type} (Op : fops F).
+Local Notation fz := (f0 Op).
+Local Notation fone := (f1 Op).
+Local Notation "a *f b" := (fmul Op a b) (at level 40, left associativity).
+
+(* ------------------------------------------------------------------ tensor train / tensor ring
+   a core is a dense order-3 tensor of shape [r1; n; r2] *)
+Definition tget (t : tensor F) (idx : list nat) : F := get fz t idx.
+Definition core_r1 (G : tensor F) : nat := nth 0 (shape G) 0.
+Definition core_n (G : tensor F) : nat := nth 1 (shape G) 0.
+Definition core_r2 (G : tensor F) : nat := nth 2 (shape G) 0.
+Definition delta (a b : nat) : F := if Nat.eqb a b then fone else fz.
+(* entry (a, b) of the matrix product G_1[:, j_1, :] G_2[:, j_2, :] ... *)
+Fixpoint tt_chain (cores : list (tensor F)) (idx : list nat) (a b : nat) : F :=
+  match cores, idx with
+  | G :: gs, j :: js => sumn Op (core_r2 G) (fun c => tget G [a; j; c] *f tt_chain gs js c b)
+  | _, _ => delta a b
+  end.
+Definition tt_entry (cores : list (tensor F)) (idx : list nat) : F := tt_chain cores idx 0 0.
+Definition tr_entry (cores : list (tensor F)) (idx : list nat) : F :=
+  sumn Op (core_r1 (hd (mk [] []) cores)) (fun a => tt_chain cores idx a a).
+Definition tt_shape (cores : list (tensor F)) : list nat := map core_n cores.
+Definition tt_to_tensor (cores : list (tensor F)) : tensor F := tabulate (tt_shape cores) (tt_entry cores).
+Definition tr_to_tensor (cores : list (tensor F)) : tensor F := tabulate (tt_shape cores) (tr_entry cores).
+
+(* pad_tt_rank: new_factor = zeros((r1 + left, n, r2 + right)); new_factor[:r1, ..., :r2] = factor
+   left = 0 for the first core, right = 0 for the last core unless pad_boundaries (the only core of an order-1
+   train is both first and last) *)
+Definition pad_core (l r : nat) (G : tensor F) : tensor F :=
+  tabulate [core_r1 G + l; core_n G; core_r2 G + r]
+    (fun ix => let a := nth 0 ix 0 in let c := nth 2 ix 0 in
+               if (a <? core_r1 G) && (c <? core_r2 G) then tget G ix else fz).
+Definition is3 (G : tensor F) : bool := Nat.eqb (length (shape G)) 3 && wfb G.
+Fixpoint pad_from (i n npad : nat) (pb : bool) (cores : list (tensor F)) : list (tensor F) :=
+  match cores with
+  | [] => []
+  | G :: gs =>
+      pad_core (if Nat.eqb i 0 && negb pb then 0 else npad) (if Nat.eqb i (n - 1) && negb pb then 0 else npad) G
+      :: pad_from (S i) n npad pb gs
+  end.
+Definition pad_tt_rank (cores : list (tensor F)) (npad : nat) (pb : bool) : res (list (tensor F)) :=
+  if forallb is3 cores then Ok (pad_from 0 (length cores) npad pb cores) else Err.
+
+(* ------------------------------------------------------------------ Tucker: represented tensor
+   entry idx = sum over the core multi-index js of core[js] * prod_k A_k[idx_k][js_k] *)
+Fixpoint tk_sum (sh : list nat) (fs : list (mat F)) (idx : list nat) (g : list nat -> F) : F :=
+  match sh, fs, idx with
+  | n :: sh', A :: fs', i :: idx' =>
+      sumn Op n (fun j => mget Op A i j *f tk_sum sh' fs' idx' (fun js => g (j :: js)))
+  | _, _, _ => g []
+  end.
+Definition tucker_entry (core : tensor F) (fs : list (mat F)) (idx : list nat) : F :=
+  tk_sum (shape core) fs idx (tget core).
+Definition tucker_to_tensor (core : tensor F) (fs : list (mat F)) : tensor F :=
+  tabulate (cp_shape fs) (tucker_entry core fs).
+
+(* _validate_tucker_tensor: at least two factors, one per core mode, factor k is (I_k >= 1) x core.shape[k] *)
+Fixpoint factors_okb (sh : list nat) (fs : list (mat F)) : bool :=
+  match sh, fs with
+  | [], [] => true
+  | n :: sh', A :: fs' => negb (Nat.eqb (length A) 0) && rectb n A && factors_okb sh' fs'
+  | _, _ => false
+  end.
+Definition tucker_okb (core : tensor F) (fs : list (mat F)) : bool :=
+  (2 <=? length fs) && wfb core && factors_okb (shape core) fs.
+
+(* mode_dot(core, u, mode) for a vector u: the mode disappears *)
+Definition contract_core (core : tensor F) (k : nat) (u : list F) : tensor F :=
+  tabulate (remove_nth k (shape core))
+    (fun js => sumn Op (nth k (shape core) 0) (fun j => vget Op u j *f tget core (insert_at k j js))).
+
+Definition tucker_mode_dot (core : tensor F) (fs : list (mat F)) (x : operand) (mode : nat) (keep_dim : bool)
+  : res (tensor F * list (mat F)) :=
+  if tucker_okb core fs && (mode <? length fs) then
+    let A := nth mode fs [] in
+    match x with
+    | OpMat M => if rectb (length A) M then Ok (core, set_nth mode (matmul Op M A) fs) else Err
+    | OpVec v =>
+        if Nat.eqb (length v) (length A) then
+          if keep_dim then Ok (core, set_nth mode [vecmat Op v A] fs)
+          else let fs' := remove_nth mode fs in
+               if 2 <=? length fs' then Ok (contract_core core mode (vecmat Op v A), fs') else Err
+        else Err
+    end
+  else Err.
+
+(* tucker_normalize: tape[k][r] = norm of column r of factor k;
+   core = core * reshape(scales_k) for every k, factor_k / where(scales_k == 0, 1, scales_k) *)
+Fixpoint scal (tape : list (list F)) (js : list nat) : F :=
+  match tape, js with
+  | sc :: t, j :: js' => vget Op sc j *f scal t js'
+  | _, _ => fone
+  end.
+Fixpoint div_all (fs : list (mat F)) (tape : list (list F)) : list (mat F) :=
+  match fs, tape with
+  | A :: fs', sc :: t => div_cols Op A (map (nz1 Op) sc) :: div_all fs' t
+  | _, _ => []
+  end.
+Definition tucker_normalize (tape : list (list F)) (core : tensor F) (fs : list (mat F)) : tensor F * list (mat F) :=
+  (tabulate (shape core) (fun js => tget core js *f scal tape js), div_all fs tape).
+
+(* ------------------------------------------------------------------ PARAFAC2: (weights, (A, B, C), projections)
+   slice i is  (P_i B) diag(w * A[i]) C^T :
+   X[i][j][k] = sum_s P_i[j][s] * (sum_r w_r A[i][r] B[s][r] C[k][r]) *)
+Definition pf2_entry (w : list F) (A B C : mat F) (Ps : list (mat F)) (i j k : nat) : F :=
+  sumn Op (length B) (fun s => mget Op (nth i Ps []) j s *f cp_entry Op w [A; B; C] [i; s; k]).
+Definition pf2_slice (w : list F) (A B C : mat F) (Ps : list (mat F)) (i : nat) : mat F :=
+  map (fun j => map (fun k => pf2_entry w A B C Ps i j k) (seq 0 (length C))) (seq 0 (length (nth i Ps []))).
+
+(* parafac2_normalise = the CP normalisation loop on (A, B, C); projections untouched *)
+Definition parafac2_normalise (tape : list (list F)) (w : list F) (A B C : mat F) (Ps : list (mat F))
+  : list F * list (mat F) * list (mat F) := (cp_normalize Op tape w [A; B; C], Ps).
+
+(* Parafac2Tensor.from_CPTensor: (Q, R) = qr(B) is data; projections = [Q] * I, B := R *)
+Definition from_cp (Qm Rm : mat F) (w : list F) (A B C : mat F) : list F * list (mat F) * list (mat F) :=
+  (w, [A; Rm; C], repeat Qm (length A)).
+
+(* svd_decompress_parafac2_tensor: projections[i] = L_i P_i where a loading matrix is given *)
+Fixpoint decompress_projs (Ps : list (mat F)) (Ls : list (option (mat F))) : list (mat F) :=
+  match Ps, Ls with
+  | P :: Ps', L :: Ls' => (match L with Some Lm => matmul Op Lm P | None => P end) :: decompress_projs Ps' Ls'
+  | _, _ => []
+  end.
+Definition svd_decompress (w : list F) (A B C : mat F) (Ps : list (mat F)) (Ls : list (option (mat F)))
+  : res (list F * list (mat F) * list (mat F)) :=
+  if Nat.eqb (length Ps) (length Ls) then Ok (w, [A; B; C], decompress_projs Ps Ls) else Err.
+
+(* svd_compress_tensor_slices, one slice; (U, s, Vh) is the recorded answer of svd_interface(n_eigenvecs = rank_limit)
+   num_svds = #{ s_i >= s_0 * threshold };  score = diag(s[:num]) Vh[:num],  loading = U[:, :num] *)
+Definition scale_rows (s : list F) (Vh : mat F) : mat F :=
+  map (fun p => map (fun x => fst p *f x) (snd p)) (combine s Vh).
+Definition count_kept (thr : F) (s : list F) : nat :=
+  length (filter (fun si => fleb Op (hd fz s *f thr) si) s).
+Definition compress_slice (rank_limit : nat) (thr : F) (X : mat F) (usv : mat F * list F * mat F)
+  : mat F * option (mat F) :=
+  if (length X <=? rank_limit) && feqb Op thr fz then (X, None)
+  else let '(U, s, Vh) := usv in
+       let num := count_kept thr s in
+       (scale_rows (firstn num s) (firstn num Vh), Some (map (firstn num) U)).
+(* the whole call: rank_limit = min(n_cols, max_rank) from the first slice; one recorded SVD answer per slice *)
+Definition svd_compress (slices : list (mat F)) (thr : F) (max_rank : option nat) (tapes : list (mat F * list F * mat F))
+  : list (mat F * option (mat F)) :=
+  let nc := ncols (hd [] slices) in
+  let rl := match max_rank with Some m => Nat.min nc m | None => nc end in
+  map (fun p => compress_slice rl thr (fst p) (snd p)) (combine slices tapes).
+End M2.
